@@ -110,7 +110,9 @@ E_ABORT, E_DUPKEY, E_DUPFIELD, E_INVALIDNAME, E_PARTIAL, E_OTHER = range(6)
 def enc_err(e):
     cn = type(e).__name__
     if cn == "BlockAbortedException":
-        return [E_ABORT, abort_code(e.abort_reason)]
+        # the wording of abort reasons is not part of any property: not compared (the model's reason codes are
+        # erased by Run/Codec.v: enc_err as well); abort_code() is kept for summaries only
+        return [E_ABORT, 0]
     if cn == "InvalidNameError":
         return [E_INVALIDNAME]
     if cn == "PartialMiddlewareException":
